@@ -57,8 +57,8 @@ type Meta struct {
 
 type fdef struct{ name, typ string }
 
-var dFields = []fdef{{"A", "string"}, {"B", "int"}, {"C", "string"}, {"D", "string"}, {"N", "Nest"}, {"P", "*Nest"}, {"Base", ""}, {"Q", "int"}, {"R", "string"}, {"L", "[]string"}, {"M", "map[string]string"}, {"G", "int"}}
-var sFields = []fdef{{"A", "int"}, {"B", "int"}, {"C", "string"}, {"D", "int"}, {"N", "Nest"}, {"P", "*Nest"}, {"Base", ""}, {"Q", "int"}, {"R", "string"}, {"L", "[]int"}, {"M", "map[string]int"}}
+var dFields = []fdef{{"A", "string"}, {"B", "int"}, {"C", "string"}, {"D", "string"}, {"N", "Nest"}, {"P", "*Nest"}, {"Base", ""}, {"Q", "int"}, {"R", "string"}, {"L", "[]string"}, {"M", "map[string]string"}, {"G", "int"}, {"L2", "[]int64"}}
+var sFields = []fdef{{"A", "int"}, {"B", "int"}, {"C", "string"}, {"D", "int"}, {"N", "Nest"}, {"P", "*Nest"}, {"Base", ""}, {"Q", "int"}, {"R", "string"}, {"L", "[]int"}, {"M", "map[string]int"}, {"L2", "[]int"}}
 
 func structText(name string, fs []fdef, pkgPrefix string) string {
 	var b strings.Builder
@@ -160,7 +160,7 @@ var MisfitKinds = []string{"err-hook-on-noerr-method", "wrong-dst-type", "wrong-
 	// one hook named by two methods: it fits the first (by name) and not the second
 	"shared-hook-extra-count", "shared-hook-extra-type", "shared-hook-dst-type",
 	// result shapes other than nothing / error
-	"concrete-error-result", "bool-result", "error-first-of-two-results"}
+	"concrete-error-result", "slice-error-result", "bool-result", "error-first-of-two-results"}
 
 // Gen builds one gensim world. kind is "normal", "noerr" or "misfit".
 func Gen(r *sim.Rng, kind string) (*sim.WorldSpec, *Meta) {
@@ -223,6 +223,7 @@ func Gen(r *sim.Rng, kind string) (*sim.WorldSpec, *Meta) {
 		{"cE1", "int", "string", true}, {"pE1", "int", "string", false},
 		{"cW", "int", "string", true}, {"pW", "int", "string", false},
 		{"cLE", "int", "string", true}, {"pLE", "int", "string", false},
+		{"cLI", "int", "int", true}, {"pLI", "int", "int", false},
 		{"cC", "string", "string", true}, {"pC", "string", "string", false},
 		{"cR", "string", "string", true},
 	}
@@ -358,6 +359,12 @@ func Gen(r *sim.Rng, kind string) (*sim.WorldSpec, *Meta) {
 		if slot(15) {
 			f, c := pickCap(mm.RetErr, "cLE", "pLE")
 			notes = append(notes, ":conv "+f+" M") // a converter for the VALUES of a map field
+			capable[f] = c
+		}
+		if slot(15) {
+			// an element converter whose result needs a cast to the element type
+			f, c := pickCap(mm.RetErr, "cLI", "pLI")
+			notes = append(notes, ":typecast", ":conv "+f+" L2")
 			capable[f] = c
 		}
 		if slot(15) {
@@ -584,6 +591,11 @@ func Gen(r *sim.Rng, kind string) (*sim.WorldSpec, *Meta) {
 				// *T returned by a succeeding hook would become a non-nil error
 				mm.RetErr = true
 				ret, body = " *rt.Injected", "\treturn nil\n"
+			case "slice-error-result":
+				// a nilable non-pointer type implementing error
+				mm.RetErr = true
+				ret, body = " FieldErrs", "\treturn nil\n"
+				fmt.Fprintf(&localHooks, "type FieldErrs []string\n\nfunc (e FieldErrs) Error() string { return \"field errors\" }\n\n")
 			case "bool-result":
 				ret, body = " bool", "\treturn true\n"
 			case "error-first-of-two-results":
